@@ -36,7 +36,7 @@ class C02(Check):
             "distinct = distinct (line-up, loss, ensemble, op list, n_jobs)")
     assumptions = ["Calibrator, samplers, losses, schedulers: real code; joblib.Parallel replaced by SimParallel (ordering/isolation model); "
                    "RL thread under the baton scheduler", "model = harness model with outputs unique per seed"]
-    quick = {"runs": 900, "wall": 150, "item_timeout": 200}
+    quick = {"runs": 900, "wall": 300, "item_timeout": 200}
     thorough = {"runs": 30000, "wall": 900, "item_timeout": 120}
 
     def gen(self, rng, tier, i):
